@@ -96,3 +96,4 @@ pub fn vio_write_all<W: Write>(w: &mut W, buf: &[u8], Tracked(sink): Tracked<&mu
 #[verifier::external_body]
 pub proof fn axiom_vec_len(v: &Vec<u8>) ensures v@.len() <= 0x7fff_ffff_ffff_ffff { }
 pub assume_specification<T: Clone> [<[T]>::to_vec] (s: &[T]) -> (r: Vec<T>) ensures r@ == s@;
+#[verifier::external_body] pub fn vfmt() -> String { String::new() }    // R3: diagnostics text is opaque
